@@ -50,6 +50,19 @@ package dkv
 //@   loop 0:
 //@     invariant db.seqNum >= latestCP.Levels.LatestSeqNum
 
+// Get and ScanPrefix read two shared structures in two separate critical sections: the memtable
+// list (List.tablesMu) and the level list (db.mu). A flush moves the records of a sealed memtable
+// from the first to the second: under db.mu it installs the level list that holds the new table
+// and THEN drops the memtable (rotateMemtable$0 below). A reader sees every record in at least one
+// of the two places only if it looks at the memtables first and takes the level list afterwards;
+// with the opposite order a flush that completes in between leaves the record in neither.
+// (Thread-modular argument: the two orderings are the obligations, the interleaving is not modelled.)
+//@ func DB.Get
+//@   property C07 C03
+//@   nosafety
+//@   order currentSSTables after Get
+//@   atcall Get@1: recv_ == db.sstables
+
 //@ func DB.currentSSTables
 //@   property C07 C03
 //@   modifies nothing
@@ -72,6 +85,7 @@ package dkv
 //@ define hasKey(res, e) := exists(0, seqlen(res), func(pp_ int) bool { return string(seqat(res, pp_).Key()) == string(e.Key()) })
 //@ func DB.ScanPrefix
 //@   property C07 C03 C10
+//@   order currentSSTables after ScanPrefix
 //@   requires db.mtables != nil
 //@   modifies nothing
 //@   ensures@A scanSorted(result)
@@ -123,9 +137,12 @@ package dkv
 // is current AT THAT MOMENT - never to the snapshot the compaction step was computed from, which
 // would drop level-0 tables flushed in the meantime.
 //@ func DB.rotateMemtable$0
-//@   property C18
+//@   property C18 C07
 //@   nosafety
 //@   atcall NewWithChangeSet: recv_ == db.sstables
+//@   atcall NewWithChangeSet: held(db.mu)
+//@   atcall Dequeue: held(db.mu)
+//@   order Dequeue after NewWithChangeSet
 
 //@ func DB.rotateMemtable$1
 //@   property C18
